@@ -7,14 +7,25 @@ from ..runner import HarnessError, Rec
 from ._shared import gen, oracle
 
 
+_N = [0]
+
+
 def check_mutant(rec, base, mutant, kind, pos):
     from ..lib import IBAN, SchwiftyException, frame_of
     inp = {"base": base, "mutant": mutant, "kind": kind, "pos": pos}
     if oracle().accept_norm(mutant):
         raise HarnessError(f"reference accepts a single-error mutant {mutant} of {base}: oracle or generator is wrong")
     z = "cc" if pos < 2 else ("cd" if pos < 4 else "bban")
-    for how, fn in (("ctor", lambda: IBAN(mutant)), ("ctor+national", lambda: IBAN(mutant, validate_bban=True)),
-                    ("validate+national", lambda: IBAN(mutant, allow_invalid=True).validate(validate_bban=True))):
+    routes = [("ctor", lambda: IBAN(mutant)), ("ctor+national", lambda: IBAN(mutant, validate_bban=True)),
+              ("validate+national", lambda: IBAN(mutant, allow_invalid=True).validate(validate_bban=True))]
+    _N[0] += 1
+    if _N[0] % 16 == 0:
+        # the mistyped text handed over as a str subclass or carried by a library object (of the same or another class)
+        from .. import dims
+        for form, v in dims.arg_forms(mutant, IBAN):
+            routes.append((f"argform:{form}", lambda v=v: IBAN(v)))
+        rec.classes["mutant-argument-forms"] += 1
+    for how, fn in routes:
         try:
             fn()
         except SchwiftyException:
@@ -33,6 +44,7 @@ def replay(rec, case):
         from ._configs import replay as _r
         return _r(rec, case)
     i = case["input"]
+    _N[0] = 15        # the replayed mutant is also tried in every argument form
     check_mutant(rec, i["base"], i["mutant"], i["kind"], i["pos"])
 
 
@@ -124,4 +136,4 @@ def run(ctx):
     ctx.pmap(shard, [(cc, ctx.seed, ctx.tier) for cc in oracle().countries()])
     from ._configs import stage as _config_stage
     _config_stage(ctx, ['parse'])
-    ctx.require_classes("replace-digit", "replace-letter", "swap-digit", "swap-letter", "base-self-similar", "base-near-self-similar", "base-nationally-valid")
+    ctx.require_classes("mutant-argument-forms", "replace-digit", "replace-letter", "swap-digit", "swap-letter", "base-self-similar", "base-near-self-similar", "base-nationally-valid")
